@@ -619,6 +619,12 @@ func (c *FnCtx) builtin(res *ssa.Call, b *ssa.Builtin, cc *ssa.CallCommon, setRe
 	case "print", "println":
 		setRes(nil)
 	case "recover":
+		if c.abstract {
+			// abstracting tier: whether a panic is in flight is unknown; the recovered value is arbitrary
+			c.used["abstracting tier: recover() returns an arbitrary value (panic or no panic)"] = true
+			setRes(freshResults("recover"))
+			return
+		}
 		c.unsup("recover")
 	default:
 		c.unsup("builtin %s", b.Name())
